@@ -304,6 +304,59 @@ M("r10-context-fixpoint-overwrite", ["C01", "C09"], "break",
   [("yaep.c", "	      if (sit != new_sit)\n		{\n		  new_sits[i] = sit;\n		  changed_p = TRUE;\n		}", "	      changed_p = sit != new_sit;\n	      new_sits[i] = sit;")], "expand_new_start_set/changed_p-accumulates")
 M("r10-context-fixpoint-or-benign", ["C01", "C09"], "benign",
   [("yaep.c", "	      if (sit != new_sit)\n		{\n		  new_sits[i] = sit;\n		  changed_p = TRUE;\n		}", "	      changed_p |= sit != new_sit;\n	      new_sits[i] = sit;")])
+M("r14-sgramm-rhs-begin-before-expand", ["C11", "C12"], "break",
+  [("sgramm.y", "	rule.rhs_len = OS_TOP_LENGTH (srhs) / sizeof (char *);\n	OS_TOP_EXPAND (srhs, sizeof (char *));\n	rule.rhs = (char **) OS_TOP_BEGIN (srhs);\n",
+    "	rule.rhs = (char **) OS_TOP_BEGIN (srhs);\n	rule.rhs_len = OS_TOP_LENGTH (srhs) / sizeof (char *);\n	OS_TOP_EXPAND (srhs, sizeof (char *));\n")], "yaep_yyparse/@srhs")
+M("r14-sgramm-rhs-len-after-expand-benign", ["C11", "C12"], "benign",
+  [("sgramm.y", "	rule.rhs_len = OS_TOP_LENGTH (srhs) / sizeof (char *);\n	OS_TOP_EXPAND (srhs, sizeof (char *));\n	rule.rhs = (char **) OS_TOP_BEGIN (srhs);\n",
+    "	OS_TOP_EXPAND (srhs, sizeof (char *));\n	rule.rhs_len = OS_TOP_LENGTH (srhs) / sizeof (char *) - 1;\n	rule.rhs = (char **) OS_TOP_BEGIN (srhs);\n")])
+M("r16-pl-capacity-two-per-token", ["C12"], "break",
+  [("yaep.c", "sizeof (struct set *) * (toks_len + 1) * 2);", "sizeof (struct set *) * toks_len * 2);")], "pl_create/capacity")
+M("r16-pl-capacity-exact-benign", ["C12"], "benign",
+  [("yaep.c", "sizeof (struct set *) * (toks_len + 1) * 2);", "sizeof (struct set *) * (2 * toks_len + 1));")])
+M("r16-pl-capacity-larger-benign", ["C12"], "benign",
+  [("yaep.c", "sizeof (struct set *) * (toks_len + 1) * 2);", "sizeof (struct set *) * (toks_len + 2) * 3);")])
+M("c10-loop-check-only-strict", ["C10", "C12"], "break",
+  [("yaep.c", "  for (i = 0; (symb = nonterm_get (i)) != NULL; i++)\n    if (symb->u.nonterm.loop_p)\n      yaep_error", "  if (strict_p)\n  for (i = 0; (symb = nonterm_get (i)) != NULL; i++)\n    if (symb->u.nonterm.loop_p)\n      yaep_error")],
+  "modes/YAEP_LOOP_NONTERM")
+M("r17-revert-F22-c", ["C17", "C16"], "break",
+  [("yaep.c", "      VLO_EXPAND (vlo_array, sizeof (vlo_t));\n      VLO_SHORTEN (vlo_array, sizeof (vlo_t));\n      vlo_ptr = &((vlo_t *) VLO_BEGIN (vlo_array))[vlo_array_len];\n      VLO_CREATE (*vlo_ptr, grammar->alloc, 64);\n      VLO_EXPAND (vlo_array, sizeof (vlo_t));",
+    "      VLO_EXPAND (vlo_array, sizeof (vlo_t));\n      vlo_ptr = &((vlo_t *) VLO_BEGIN (vlo_array))[vlo_array_len];\n      VLO_CREATE (*vlo_ptr, grammar->alloc, 64);")],
+  "vlo_array_expand/slot-visible-before-created")
+M("r17-revert-F22-cxx", ["C17", "C16"], "break",
+  [("yaep.c", "      vlo_array->expand (sizeof (vlo_t *));\n      vlo_array->shorten (sizeof (vlo_t *));\n      vlo_ptr = &((vlo_t **) vlo_array->begin ())[vlo_array_len];\n      *vlo_ptr = new vlo (grammar->alloc, 64);\n      vlo_array->expand (sizeof (vlo_t *));",
+    "      vlo_array->expand (sizeof (vlo_t *));\n      vlo_ptr = &((vlo_t **) vlo_array->begin ())[vlo_array_len];\n      *vlo_ptr = new vlo (grammar->alloc, 64);")],
+  "[c++] vlo_array_expand/slot-visible-before-created")
+M("r17-reserve-two-slots-benign", ["C17", "C16"], "benign",
+  [("yaep.c", "      VLO_EXPAND (vlo_array, sizeof (vlo_t));\n      VLO_SHORTEN (vlo_array, sizeof (vlo_t));\n      vlo_ptr = &((vlo_t *) VLO_BEGIN (vlo_array))[vlo_array_len];",
+    "      VLO_EXPAND (vlo_array, 2 * sizeof (vlo_t));\n      VLO_SHORTEN (vlo_array, sizeof (vlo_t));\n      VLO_SHORTEN (vlo_array, sizeof (vlo_t));\n      vlo_ptr = &((vlo_t *) VLO_BEGIN (vlo_array))[vlo_array_len];")])
+M("r19-c-stale-entries-pointer", ["C19", "C16"], "break",
+  [("hashtab.c", "  unsigned hash_value, secondary_hash_value;\n\n  assert (htab != NULL);\n  if (htab->size / 4 <= htab->number_of_elements / 3)\n    expand_hash_table (htab);",
+    "  unsigned hash_value, secondary_hash_value;\n  hash_table_entry_t *entries = htab->entries;\n\n  assert (htab != NULL);\n  if (htab->size / 4 <= htab->number_of_elements / 3)\n    expand_hash_table (htab);"),
+   ("hashtab.c", "      entry_ptr = htab->entries + hash_value;\n      if (*entry_ptr == EMPTY_ENTRY)\n	{\n	  if (reserve)", "      entry_ptr = entries + hash_value;\n      if (*entry_ptr == EMPTY_ENTRY)\n	{\n	  if (reserve)")],
+  "find_hash_table_entry/entries")
+M("r19-c-size-cached-after-expand-benign", ["C19", "C16"], "benign",
+  [("hashtab.c", "  hash_value = (*htab->hash_function) (element);\n  secondary_hash_value = 1 + hash_value % (htab->size - 2);\n  hash_value %= htab->size;",
+    "  {\n    size_t size = htab->size;\n    hash_value = (*htab->hash_function) (element);\n    secondary_hash_value = 1 + hash_value % (size - 2);\n    hash_value %= size;\n  }")])
+M("r19-cxx-stale-size", ["C19", "C16"], "break",
+  [("hashtab.cpp", "  unsigned hash_value, secondary_hash_value;\n\n  if (_size / 4 <= number_of_elements / 3)\n    expand_hash_table ();", "  unsigned hash_value, secondary_hash_value;\n  const size_t size = _size;\n\n  if (_size / 4 <= number_of_elements / 3)\n    expand_hash_table ();"),
+   ("hashtab.cpp", "      if (hash_value >= _size)\n	hash_value -= _size;\n    }\n  return entry_ptr;", "      if (hash_value >= size)\n	hash_value -= size;\n    }\n  return entry_ptr;")],
+  "find_entry")
+M("r18-tailor-empty-gets-a-byte", ["C19", "C16"], "break",
+  [("vlobject.c", "  if (new_vlo_start != vlo->vlo_start)\n    {\n      vlo->vlo_free += new_vlo_start - vlo->vlo_start;\n      vlo->vlo_start = new_vlo_start;\n    }\n  vlo->vlo_boundary = vlo->vlo_start + vlo_length;\n}\n\n/* The following function implements macro `VLO_ADD_STRING'",
+    "  vlo->vlo_start = new_vlo_start;\n  vlo->vlo_free = vlo->vlo_boundary = vlo->vlo_start + vlo_length;\n}\n\n/* The following function implements macro `VLO_ADD_STRING'"),
+   ("vlobject.cpp", "  if (new_vlo_start != vlo_start)\n    {\n      vlo_free += new_vlo_start - vlo_start;\n      vlo_start = new_vlo_start;\n    }\n  vlo_boundary = vlo_start + vlo_length;\n}\n\n/* The following function implements addition of string",
+    "  vlo_start = new_vlo_start;\n  vlo_free = vlo_boundary = vlo_start + vlo_length;\n}\n\n/* The following function implements addition of string")],
+  "_VLO_tailor_function/length-kept")
+M("r18-tailor-unconditional-rebase-benign", ["C19", "C16"], "benign",
+  [("vlobject.c", "  if (new_vlo_start != vlo->vlo_start)\n    {\n      vlo->vlo_free += new_vlo_start - vlo->vlo_start;\n      vlo->vlo_start = new_vlo_start;\n    }\n  vlo->vlo_boundary = vlo->vlo_start + vlo_length;\n}\n\n/* The following function implements macro `VLO_ADD_STRING'",
+    "  vlo->vlo_free = new_vlo_start + (vlo->vlo_free - vlo->vlo_start);\n  vlo->vlo_start = new_vlo_start;\n  vlo->vlo_boundary = vlo->vlo_start + vlo_length;\n}\n\n/* The following function implements macro `VLO_ADD_STRING'"),
+   ("vlobject.cpp", "  if (new_vlo_start != vlo_start)\n    {\n      vlo_free += new_vlo_start - vlo_start;\n      vlo_start = new_vlo_start;\n    }\n  vlo_boundary = vlo_start + vlo_length;\n}\n\n/* The following function implements addition of string",
+    "  vlo_free = new_vlo_start + (vlo_free - vlo_start);\n  vlo_start = new_vlo_start;\n  vlo_boundary = vlo_start + vlo_length;\n}\n\n/* The following function implements addition of string")])
+M("r18-os-move-loses-last-byte", ["C19", "C16"], "break",
+  [("objstack.c", "  os->os_top_object_free = os->os_top_object_start + os_top_object_length;\n  os->os_boundary = os->os_top_object_start + segment_length;",
+    "  os->os_top_object_free = os->os_top_object_start + os_top_object_length - 1;\n  os->os_boundary = os->os_top_object_start + segment_length;")],
+  "_OS_expand_memory/length-kept")
 
 # ---- R8 / R2f (C16, C19) ----------------------------------------------------------------------------
 M("r8-revert-F14", ["C19", "C16"], "break", [("hashtab.cpp", "		  entry_ptr = first_deleted_entry_ptr;\n		  *entry_ptr = EMPTY_ENTRY;", "		  entry_ptr = first_deleted_entry_ptr;\n		  *entry_ptr = DELETED_ENTRY;")], "find_hash_table_entry~")
